@@ -50,7 +50,7 @@ func c03Alphabet() []Req {
 		mkReq(opOpenDir, "/d2"), mkReq(opOpenDir, "/nope"), mkReq(opOpenDir, "/empty"), mkReq(opOpenDir, "/f.bin"), mkReq(opOpenDir, "/d3"), mkReq(opOpenDir, "/d1"),
 		noargReq(opReadDirEntry), noargReq(opReadDirEntryV2), noargReq(opReadDir),
 		mkReq(opStatFile, "/f.bin"), mkReq(opStatFile, "/nope"), mkReq(opStatFile, "/d2"),
-		mkReq(opOpenFile, "/f.bin"), mkReq(opOpenFile, "/nope"), mkReq(opOpenFile, "/d2/b.bin"), mkReq(opOpenFile, "/CLOSEFILE"),
+		mkReq(opOpenFile, "/f.bin"), mkReq(opOpenFile, "/nope"), mkReq(opOpenFile, "/d2/b.bin"), mkReq(opOpenFile, "/CLOSEFILE"), mkReq(opOpenFile, "/d2"), mkReq(opOpenFile, "/***DVD***/d2"),
 		rdReq(0, 100), rdReq(100, 50), rdReq(4990, 100), rdReq(6000, 10), rdReq(17, 0), rdReq(1<<63, 10),
 		rdcReq(10, 20), rdcReq(4990, 100), cdReq(0, 1), cdReq(1826092, 1),
 		mkReq(opCreateFile, "/w/new.bin"), mkReq(opCreateFile, "/w/old.txt"), mkReq(opCreateFile, "/nodir/x"),
@@ -79,7 +79,7 @@ func TestC03(t *testing.T) {
 	if r.Thorough() {
 		depth = 4
 	}
-	r.Rule("all request sequences of length <= depth over a 39-request alphabet covering the 15 opcodes in success and failure form plus unknown opcodes, x writing enabled/disabled; every truncation point of every request as last request after every 1-request prefix; whole/1-byte/7-byte delivery; the same sequences pipelined in one piece (stream = concatenation of the one-by-one answers); an upload whose storing fails (ENOSPC, EIO, partial write) at every write of a 70000-byte payload with three transfer buffer configurations; a case is distinct by (allow-write, executed request prefix, delivery)")
+	r.Rule("all request sequences of length <= depth over a 41-request alphabet (incl. a directory and a generated image opened as a file) covering the 15 opcodes in success and failure form plus unknown opcodes, x writing enabled/disabled; every truncation point of every request as last request after every 1-request prefix; whole/1-byte/7-byte delivery; the same sequences pipelined in one piece (stream = concatenation of the one-by-one answers); listings of directories of 4095 / 4096 / 4097 / 5000 (thorough: 65537) entries followed by further requests; an upload whose storing fails (ENOSPC, EIO, partial write) at every write of a 70000-byte payload with three transfer buffer configurations; a case is distinct by (allow-write, executed request prefix, delivery)")
 	r.Extra("depth", depth)
 	r.Extra("alphabet", len(alpha))
 
@@ -274,6 +274,43 @@ func TestC03(t *testing.T) {
 	// payload: the server must still consume exactly the announced payload, answer the failure code (or end the
 	// connection) and stay in step for the following requests
 	storeFailureFamily(t, r, cw.w.Root, cw.resetW, "C03")
+	// (6) listings of very large directories (around 4096 entries - the console's own limit - and beyond 16 bits):
+	// the announced count and the bytes that follow agree, and the connection stays in step afterwards
+	for i, n := range []int{4095, 4096, 4097, 5000, 65537} {
+		if r.Shard != (i*3+1)%r.NShards || (n > 5000 && !r.Thorough()) {
+			continue
+		}
+		bw := newWorld(t, "root")
+		for k := 0; k < n; k++ {
+			if k%97 == 5 {
+				must(os.Mkdir(filepath.Join(bw.Root, sprintf("big/d%05d", k)), 0o755))
+			} else if k == 0 {
+				bw.File("big/f00000.bin", 3, 1)
+			} else {
+				must(os.WriteFile(filepath.Join(bw.Root, sprintf("big/f%05d.bin", k)), []byte{byte(k)}, 0o644))
+			}
+		}
+		bw.File("after.bin", 77, 2)
+		for _, seq := range [][]Req{
+			{mkReq(opOpenDir, "/big"), noargReq(opReadDir), mkReq(opStatFile, "/after.bin"), noargReq(opReadDir), mkReq(opOpenFile, "/after.bin"), rdReq(0, 77)},
+			{mkReq(opOpenDir, "/big"), noargReq(opReadDirEntry), noargReq(opReadDir), noargReq(opReadDirEntryV2), mkReq(opGetDirSize, "/big"), mkReq(opStatFile, "/big")},
+		} {
+			m := newModel(bw.Root, false)
+			res := runSession(t, SrvOpts{Root: bw.Root}, m, seq, Delivery{})
+			r.Transition(int64(len(res.Steps)))
+			r.Eval(1)
+			key := sprintf("bigdir|%d|%s", n, strings.Join(reqStrings(seq), ","))
+			r.State(key)
+			r.Nontrivial(key)
+			for _, st := range res.Steps {
+				r.Outcome("bigdir:" + st.Class)
+			}
+			if res.Why != "" {
+				r.Violation("C03:bigdir:"+res.WhySig, sprintf("directory of %d entries: %s", n, res.Why), map[string]any{"entries": n, "requests": seq})
+			}
+		}
+		bw.Cleanup()
+	}
 	// (4) deep explicit-state search: histories are merged by the reference model's abstract state
 	// (open directory + remaining entries, open read file, open write file, digest of the writable subtree);
 	// a successor is produced by replaying the shortest history on a fresh server plus one request.
